@@ -63,7 +63,7 @@ def mk_case(cid, c, rng, origin="tlc"):
     return {"id": cid, "kind": "c08", "origin": origin,
             "abs": {"forms": forms, "dflt": c["dflt"], "src": c["src"], "ocr": c["ocr"]},
             "args": {"text": sep.join(parts), "canon_text": sep.join(cparts), "dflt": c["dflt"], "src": c["src"],
-                     "cfg_form": rng.choice(["text", "text", "kwargs", "dict"]),
+                     "cfg_form": rng.choice(["text", "text", "kwargs", "dict", "parent"]), "parent_kind": rng.choice(["tract", "plss"]),
                      "ocr": c["ocr"], "want_short": want_short, "group_starts": group_starts}}
 
 
